@@ -589,6 +589,7 @@ def check(prop, tier, families=None, only_entry=None, verbose=False):
     violations = []
     infra = []
     nrep = 0
+    static_viol = False
     native_cache = {}
 
     def replay_result(fam, q, bb, r):
@@ -622,6 +623,29 @@ def check(prop, tier, families=None, only_entry=None, verbose=False):
             violations.append((fam, q, bb, r, reasons))
         else:
             infra.append('%s: %s %s cfg=%s: %s' % (r.status, fam.name, q['entry'], cfg_key(bb.cfg), r.detail[:300]))
+    # C02 obligation 3 (DESIGN.md 1.4): no dynamic allocator is called from library code - static walk over the whole kernel IR
+    # (every function instantiated from the tetl headers by the kernels, all paths, no bound)
+    if prop == 'C02':
+        seen_alloc = set()
+        for b_ in builds.values():
+            if b_.ok and getattr(b_, 'alloc_calls', None) and b_.fam.name not in seen_alloc:
+                seen_alloc.add(b_.fam.name)
+                nrep += 1
+                d_ = os.path.join(OUT, 'replay', prop)
+                os.makedirs(d_, exist_ok=True)
+                p_ = os.path.join(d_, 'allocator-%s.json' % b_.fam.name.replace('/', '_'))
+                ktxt = open(os.path.join(b_.dir, 'K.ll')).read()
+                sites = []
+                cur = None
+                for l in ktxt.splitlines():
+                    m = re.match(r'^define [^@]*@("?[^"( ]+"?)\(', l)
+                    if m:
+                        cur = m.group(1)
+                    if re.search(r'call [^@\n]*@(_Znwm|_Znam|malloc|calloc|realloc|free|aligned_alloc|_ZdlPv|_ZdaPv|_ZdlPvm)\(', l):
+                        sites.append(cur)
+                json.dump({'property': prop, 'family': b_.fam.name, 'kind': 'static', 'allocator_calls': b_.alloc_calls, 'in_functions': sorted(set(sites))[:20], 'cfg': b_.cfg}, open(p_, 'w'), indent=1)
+                print('VIOLATION property=%s replay=%s  [static IR walk: kernel IR of family %s calls %s inside %s]' % (prop, os.path.relpath(p_, OUT), b_.fam.name, ','.join(b_.alloc_calls), ', '.join(sorted(set(sites))[:3])))
+                static_viol = True
     # vacuity inside a fully-known region is acceptable: re-check handled by spec authors via separate configs
     kf_lines = []
     # native replay binaries of the confirm queries are independent of each other: build them in parallel
@@ -733,7 +757,7 @@ def check(prop, tier, families=None, only_entry=None, verbose=False):
             'documented preconditions of each operation assumed in the driver; stubs: operator new/malloc assert, nothrow new returns null, libc leaf functions modelled by reference loops',
         ] + [a for fam in fams for a in getattr(fam.mod, 'ASSUMPTIONS', [])],
         'wall_s': round(time.time() - t0, 1),
-        'violations': len(violations),
+        'violations': len(violations) + (1 if static_viol else 0),
     }
     os.makedirs(os.path.join(OUT, 'evidence'), exist_ok=True)
     json.dump(ev, open(os.path.join(OUT, 'evidence', prop + '.json'), 'w'), indent=1, default=str)
@@ -741,7 +765,7 @@ def check(prop, tier, families=None, only_entry=None, verbose=False):
         prop, tier, nok, nq, len(violations), len(infra) + len(bad_builds), nval, time.time() - t0), flush=True)
     if not os.environ.get('VF_KEEP'):
         shutil.rmtree(os.path.join(BUILD, tag), ignore_errors=True)
-    if violations:
+    if violations or static_viol:
         return 1
     if infra or bad_builds or nq == 0:
         return 3
